@@ -33,13 +33,14 @@ type step struct {
 }
 
 type history struct {
+	Pivot    bool   `json:"pivot"` // agent 1 is an SMB pivot child of agent 0
 	SendLogs bool   `json:"send_logs"`
 	Seed     int64  `json:"seed"`
 	Steps    []step `json:"steps"`
 }
 
 // effectful layouts: accepted => visible effect
-var effectful = []string{"exit", "kill_date", "sleep.fixed", "config.killdate", "output", "fs.cd", "proc.kill", "net.domain", "beacon.output", "inline.ran_ok", "fs.download.open", "checkin.meta", "job.list", "token.make", "fs.pwd", "error.win32", "assembly.finished"}
+var effectful = []string{"fs.download.close", "exit", "kill_date", "sleep.fixed", "config.killdate", "output", "fs.cd", "proc.kill", "net.domain", "beacon.output", "inline.ran_ok", "fs.download.open", "checkin.meta", "job.list", "token.make", "fs.pwd", "error.win32", "assembly.finished"}
 
 func bodyFor(name string, rng *rand.Rand, s *rig.Sim) (cmd uint32, body []byte, final bool) {
 	switch name {
@@ -47,6 +48,11 @@ func bodyFor(name string, rng *rand.Rand, s *rig.Sim) (cmd uint32, body []byte, 
 		var p demon.Pkg
 		p.I32(2).I32(0).I32(uint32(0x700 + rng.Intn(100))).I64(10).WStr(fmt.Sprintf("C:\\t\\forged%d.bin", rng.Intn(1000)))
 		return 15, p.B, false
+	case "fs.download.close":
+		// close of a transfer (reason 0 = finished): the terminal package of a download task
+		var p demon.Pkg
+		p.I32(2).I32(2).I32(uint32(0x700 + rng.Intn(100))).I32(0)
+		return 15, p.B, true
 	case "checkin.meta":
 		var p demon.Pkg
 		m := s.Meta
@@ -72,6 +78,7 @@ type world struct {
 	rng   *rand.Rand
 	db    string
 	loot  string
+	pivot bool
 }
 
 func (w *world) snapshot() string {
@@ -79,6 +86,12 @@ func (w *world) snapshot() string {
 }
 
 func (w *world) checkin(i int, cbs ...demon.Callback) rig.Resp {
+	if w.pivot && i == 1 {
+		// the child's package travels inside its parent's check-in
+		inner := demon.Checkin(w.sims[1].ID, w.sims[1].Key, w.sims[1].IV, cbs...)
+		resp, _, _ := w.sims[0].Checkin(w.h.GinEngine, demon.PivotWrap(inner))
+		return resp
+	}
 	resp, _, _ := w.sims[i].Checkin(w.h.GinEngine, cbs...)
 	return resp
 }
@@ -96,11 +109,21 @@ func runHistory(c *lib.Ctx, h history) (sig, what string) {
 		return
 	}
 	w := &world{r: r, h: hh, rec: rig.NewRecorder(r.TS), next: 0x40000, rng: rand.New(rand.NewSource(h.Seed)),
-		db: r.Dir + "/data/teamserver.db", loot: r.Dir + "/data/loot"}
+		db: r.Dir + "/data/teamserver.db", loot: r.Dir + "/data/loot", pivot: h.Pivot}
 	hh.Teamserver = w.rec
 	for i, id := range []uint32{0x0a0a0001, 0x7ffffff0, 0x90000003} {
 		s := rig.NewSim(w.rng, id)
-		if resp := s.Register(hh.GinEngine); resp.Status != 200 {
+		if h.Pivot && i == 1 {
+			// registered through agent 0's SMB connect callback
+			w.next++
+			rig.TaskSimple(r.TS, w.sims[0].Hex(), w.next)
+			w.sims[0].Checkin(hh.GinEngine)
+			w.sims[0].Checkin(hh.GinEngine, demon.SmbConnect(w.next, s.RegisterBytes()))
+			if len(r.TS.Agents.Agents) != 2 {
+				c.Inconclusive("setup: pivot registration failed")
+				return
+			}
+		} else if resp := s.Register(hh.GinEngine); resp.Status != 200 {
 			c.Inconclusive(fmt.Sprintf("setup: registration %d failed", i))
 			return
 		}
@@ -193,17 +216,19 @@ func runHistory(c *lib.Ctx, h history) (sig, what string) {
 			// state it meets only by the forged callback
 			w.checkin(a)
 			w.queue[a] = nil
-			before := w.snapshot()
 			w.rec.Take()
+			w.checkin(a)
+			base := effKey(w.rec.Take()) // what a bare check-in on this route causes by itself
+			before := w.snapshot()
 			resp := w.checkin(a, demon.Callback{Cmd: cmd, ReqID: id, Body: body})
 			if resp.Panic != nil {
 				return lib.PanicSig(resp.Panic, resp.Stack), fmt.Sprintf("step %d: forged %s callback panics: %v", si, st.Layout, resp.Panic)
 			}
 			eff := w.rec.Take()
 			after := w.snapshot()
-			if len(eff) > 0 {
+			if effKey(eff) != base {
 				b, _ := json.Marshal(eff)
-				return fmt.Sprintf("forged-callback-effect:%s:%s", kind, eff[0].Call), fmt.Sprintf("step %d: callback %s for agent %s with %s request id %#x caused %s", si, st.Layout, w.sims[a].Hex(), kind, id, clip(string(b), 400))
+				return fmt.Sprintf("forged-callback-effect:%s:%s", kind, firstCall(eff)), fmt.Sprintf("step %d: callback %s for agent %s with %s request id %#x caused %s", si, st.Layout, w.sims[a].Hex(), kind, id, clip(string(b), 400))
 			}
 			if before != after {
 				return fmt.Sprintf("forged-callback-state:%s", kind), fmt.Sprintf("step %d: callback %s for agent %s with %s request id %#x changed state: %v", si, st.Layout, w.sims[a].Hex(), kind, id,
@@ -212,6 +237,26 @@ func runHistory(c *lib.Ctx, h history) (sig, what string) {
 		}
 	}
 	return "", ""
+}
+
+func effKey(e []rig.Effect) string {
+	var sb []string
+	for _, x := range e {
+		sb = append(sb, x.Call+"/"+x.Agent+"/"+fmt.Sprint(len(x.Output)))
+	}
+	return fmt.Sprint(sb)
+}
+
+func firstCall(e []rig.Effect) string {
+	for _, x := range e {
+		if len(x.Output) > 0 || x.Call != "AgentConsole" {
+			return x.Call
+		}
+	}
+	if len(e) > 0 {
+		return e[0].Call
+	}
+	return "none"
 }
 
 func mustState(s string) observe.State {
@@ -228,7 +273,7 @@ func clip(s string, n int) string {
 }
 
 func gen(rng *rand.Rand) history {
-	h := history{SendLogs: rng.Intn(2) == 0, Seed: rng.Int63()}
+	h := history{SendLogs: rng.Intn(2) == 0, Seed: rng.Int63(), Pivot: rng.Intn(3) == 0}
 	kinds := []string{"never", "other", "completed", "zero", "max"}
 	// warm-up: every agent gets tasks
 	for a := 0; a < 3; a++ {
@@ -240,7 +285,12 @@ func gen(rng *rand.Rand) history {
 		}
 	}
 	n := 12 + rng.Intn(18)
-	finals := []string{"sleep.fixed", "config.killdate", "fs.cd", "proc.kill", "net.domain", "inline.ran_ok", "job.list", "token.make", "fs.pwd", "assembly.finished", "checkin.meta"}
+	finals := []string{"checkin.meta", "fs.download.close", "sleep.fixed", "config.killdate"}
+	for _, l := range model.Layouts {
+		if l.Final && !l.NoTask {
+			finals = append(finals, l.Name)
+		}
+	}
 	for i := 0; i < n; i++ {
 		a := rng.Intn(3)
 		switch k := rng.Intn(10); {
@@ -260,7 +310,7 @@ func gen(rng *rand.Rand) history {
 }
 
 func run(c *lib.Ctx) {
-	c.Rule("histories of issue / hand-out / genuine final callback / forged callback / replayed final callback over 3 agents (ids below and above 2^31), SendLogs on and off; forged ids from {never issued, outstanding for another agent, completed, 0, 2^32-1} x 17 bodies that have a visible effect when accepted; distinct = distinct history; non-trivial = contains a forged or replayed callback that was actually sent")
+	c.Rule("histories of issue / hand-out / genuine final callback / forged callback / replayed final callback over 3 agents (ids below and above 2^31), SendLogs on and off; forged ids from {never issued, outstanding for another agent, completed, 0, 2^32-1} x 18 bodies that have a visible effect when accepted; distinct = distinct history; non-trivial = contains a forged or replayed callback that was actually sent")
 	c.Assume("effects are observed at the agent.TeamServer interface, in the session/queue/link/download snapshot, the database rows (timestamps masked) and the loot tree", "'final' follows the places where the Demon sends one terminal package (model.Layouts); kinds with possible later output are never treated as final",
 		"relay kinds (COMMAND_SOCKET, COMMAND_PIVOT) and, with log forwarding on, BEACON_OUTPUT are outside the assertion")
 	one := func(h history) {
@@ -286,7 +336,7 @@ func run(c *lib.Ctx) {
 		}
 		return
 	}
-	n := c.N(640, 30000)
+	n := c.N(2400, 60000)
 	for i := 0; i < n; i++ {
 		one(gen(c.Rng))
 	}
